@@ -1,7 +1,7 @@
 """C19 - futures calendars: expiry rules, cut-off before expiry, ordered chains (engine CAL, exhaustive)."""
 import calendar
 import datetime as dt
-from datetime import datetime
+from datetime import datetime, timedelta
 
 from tradingenv.contracts import ES, NK, VX, ZQ, ZT, ZF, ZN, ZB, Future, FutureChain, AbstractContract
 from tradingenv.events import EventContractDiscontinued
@@ -22,9 +22,9 @@ RULE = ("Systematic part: the whole (class, year, month) domain - 8 built-in cla
         "its expiry. Every case is non-trivial (a distinct part of the "
         "domain).")
 ASSUMPTIONS = ["the oracle is the property's own wording of the exchange rules; exchange holidays are not modelled by the property"]
-REQUIRED_CATS = ["span-ends-on-a-period-end", "float-arguments-refused-then-retried", "explicit-contracts:list", "explicit-contracts:ndarray", "explicit-contracts:series-permuted-index",
+REQUIRED_CATS = ["user-subclass-of-a-built-in-future:parent-first", "user-subclass-of-a-built-in-future:subclass-first", "span-ends-on-a-period-end", "float-arguments-refused-then-retried", "explicit-contracts:list", "explicit-contracts:ndarray", "explicit-contracts:series-permuted-index",
                  "explicit-contracts:series-filtered"]
-REQUIRED = ["C19:survives-copy", "C19:expiry-rule", "C19:cutoff-before-expiry", "C19:symbol", "C19:chain-ordered", "C19:chain-unique-symbols",
+REQUIRED = ["C19:user-subclass-own-rule", "C19:survives-copy", "C19:expiry-rule", "C19:cutoff-before-expiry", "C19:symbol", "C19:chain-ordered", "C19:chain-unique-symbols",
             "C19:chain-events"]
 TECHNIQUE = "runtime monitoring: exhaustive enumeration of the calendar domain against a datetime-only reference"
 LEVEL_TEXT = ("Exhaustive enumeration of the per-contract domain (every class, year 1970-2099, month) against an independent "
@@ -208,7 +208,39 @@ def sys_case(ctx, j, tier):
     ctx.nontrivial = True
 
 
+def user_subclass_case(ctx):
+    """A user subclasses a BUILT-IN future to change its calendar (a holiday-adjusted VX, an ES settled a day earlier):
+    the subclass follows its own rule, and the built-in class next to it - same months, same process, either order of
+    first use - keeps following the exchange rule."""
+    rng = ctx.rng
+    AbstractContract.now = datetime.min
+    cls = rng.choice(CLASSES)
+    shift = timedelta(days=rng.choice([1, 3]))
+    sub = type(cls.__name__ + "H", (cls,), {"_get_expiry_date": lambda self, y, m, _c=cls, _s=shift: _c._get_expiry_date(self, y, m) - _s})
+    months = [(rng.randint(1970, 2099), rng.choice([3, 6, 9, 12])) for _ in range(3)]
+    order = rng.choice(["parent-first", "subclass-first"])
+    for y, m in months:
+        if order == "parent-first":
+            check_contract(ctx, cls, y, m)
+        u = sub(y, m)
+        want = want_expiry(cls, y, m) - shift
+        ctx.check("C19:user-subclass-own-rule", as_date(u.expiry) == want and u.last_trading_date < u.expiry and
+                  u.symbol_short == cls.__name__ + "H", cls=cls.__name__, year=y, month=m, got=u.expiry, want=want, order=order)
+        p = check_contract(ctx, cls, y, m)
+        ev = u.make_events()
+        ctx.check("C19:user-subclass-own-rule", len(ev) == 1 and ev[0].time == u.expiry and ev[0].contract is u and
+                  as_date(p.expiry) == want_expiry(cls, y, m), cls=cls.__name__, year=y, month=m, order=order, part="events")
+        u2 = sub(y, m)
+        ctx.check("C19:user-subclass-own-rule", u2.expiry == u.expiry and u2.last_trading_date == u.last_trading_date,
+                  cls=cls.__name__, year=y, month=m, order=order, part="built-again")
+    ctx.cat("user-subclass-of-a-built-in-future:" + order)
+    ctx.nontrivial = True
+    ctx.sample = {"user_subclass_of": cls.__name__, "shift_days": shift.days, "months": months, "order": order}
+
+
 def case(ctx, i, tier):
+    if i % 5 == 3:
+        return user_subclass_case(ctx)
     rng = ctx.rng
     AbstractContract.now = datetime.min
     cls = rng.choice(CLASSES)
